@@ -2,7 +2,8 @@
    message corruption.  Only statements closed by [exact] + Print Assumptions. *)
 From Coq Require Import NArith List Bool.
 From Mpc Require Import Base.Label Base.Codec Circuit.Circuit Circuit.Garble
-     Proto.Session Proto.SessionProof Proto.Conn Proto.ConnProof Proto.SessionRx Proto.SessionRxProof.
+     Proto.Session Proto.SessionProof Proto.Conn Proto.ConnProof Proto.SessionRx Proto.SessionRxProof
+     Circuit.GGarble Proto.SpanView Proto.SpanViewProof.
 Import ListNotations.
 From Mpc Require Gen.State Base.StateExpected Base.StateCheck Base.StatePkgs.
 
@@ -99,6 +100,62 @@ Theorem C16_bytes_query :
     of_be (firstn 4 bytes) = N.of_nat (n0 c) /\ of_be (firstn 4 (skipn 4 bytes)) = N.of_nat (n1 c).
 Proof. exact garbler_rx_query_sound. Qed.
 Print Assumptions C16_bytes_query.
+
+(* THE FORGERY IS NOT A LINEAR FUNCTION OF THE VIEW (idealised symbolic execution of
+   Circuit/GGarble.v: values are GF(2)-combinations of basis elements and R; the hash is
+   a memoising random oracle).  For EVERY permute-bit assignment, EVERY wf circuit with
+   at most 2^32 tweaks and EVERY input, with view = everything label-dependent the
+   garbler transmits (one label per input wire + every garbled row):
+   (a) no GF(2)-linear combination of the view — EVERY selection [sel] — equals R;
+   (b) no two elements of the span are R apart: for EVERY value h, if h is in the span
+       then h xor R (the forgery for an honest label h) is not;
+   (c) the view is linearly independent (a combination that is 0 selects nothing),
+       i.e. its rank is its length.
+   This closes the gap between C16_wrong_implies_forgery and C04 (which only excludes R
+   and R-pairs VERBATIM in the transcript) for linear adversaries. *)
+Theorem C16_forgery_not_in_span :
+  forall (perm : nat -> bool) (c : circuit) (x : list bool),
+    wf c = true -> (tweaks_of (gates c) <= 2 ^ 32)%N ->
+    let view := sym_transcript perm c x in
+    (forall sel, span_xor sel view <> Rsym) /\
+    (forall h, in_span h view -> ~ in_span (lxor h Rsym) view) /\
+    (forall sel, span_xor sel view = 0%N -> forall i, (i < length view)%nat -> nth i sel false = false).
+Proof. exact forgery_not_in_span. Qed.
+Print Assumptions C16_forgery_not_in_span.
+
+(* Composed with the garbler's label test (sym_accepts = BitFromLabel on symbolic values):
+   for every permute-bit assignment, wf circuit, input, every wire w with L1 = L0 xor R,
+   every plain value v of that wire whose honest label (pick w v) the evaluator can derive
+   linearly from the view, and EVERY response that is a linear function of the view
+   (every selection): if the garbler accepts the response, the bit it decodes is v. *)
+Theorem C16_linear_response_right_bit :
+  forall (perm : nat -> bool) (c : circuit) (x : list bool) (w : wire) (v : bool)
+         (sel : list bool) (b : bool),
+    wf c = true -> (tweaks_of (gates c) <= 2 ^ 32)%N ->
+    L1 w = lxor (L0 w) Rsym ->
+    let view := sym_transcript perm c x in
+    in_span (pick w v) view ->
+    sym_accepts w (span_xor sel view) = Some b -> b = v.
+Proof. exact linear_response_right_bit. Qed.
+Print Assumptions C16_linear_response_right_bit.
+
+(* The executable span test that run_c16 evaluates on the generated circuits of every
+   run (Gaussian elimination on bitsets, SpanView.in_span_b) is sound (a positive answer
+   exhibits a combination), hence on the view of EVERY wf circuit, permute-bit assignment
+   and input it never reports R in the span nor two span elements R apart. *)
+Theorem C16_span_test_sound :
+  forall v tr, in_span_b v tr = true -> in_span v tr.
+Proof. exact in_span_b_sound. Qed.
+Print Assumptions C16_span_test_sound.
+
+Theorem C16_span_test_never_fires :
+  forall (perm : nat -> bool) (c : circuit) (x : list bool),
+    wf c = true -> (tweaks_of (gates c) <= 2 ^ 32)%N ->
+    let view := sym_transcript perm c x in
+    in_span_b Rsym view = false /\
+    forall h, in_span_b h view = true -> in_span_b (lxor h Rsym) view = false.
+Proof. exact span_test_never_fires. Qed.
+Print Assumptions C16_span_test_never_fires.
 
 (* STATE INVENTORY (finite obligation on the model regenerated from the source, checked by
    computation).  The struct fields and package-level variables of the Go packages this
